@@ -135,7 +135,7 @@ func clip(s string, n int) string {
 
 func c10Corpus() map[string]string {
 	out := map[string]string{}
-	files, _ := filepath.Glob("/repo/examples/*.mg")
+	files, _ := filepath.Glob(repoDir() + "/examples/*.mg")
 	sort.Strings(files)
 	for _, f := range files {
 		b, err := os.ReadFile(f)
